@@ -220,6 +220,11 @@ CLAUSES.append(
     )
 )
 
+from .. import decoders as D  # noqa: E402
+from ..envcheck import env_clauses  # noqa: E402
+
+CLAUSES.extend(env_clauses("C12", ("cfdp_pdu", "cfdp_header")))
+
 PROPERTY = Property(
     id="C12",
     level="exploration",
